@@ -18,7 +18,8 @@
    A tag with the empty value counts as absent (Find returns "" for "not found"). *)
 From Coq Require Import String List Bool Arith ZArith Permutation.
 From Verif Require Import C18.Model C18.Spec C18.Equiv C18.StrOrder C18.Proofs C18.GenOk C18.Main C18.Tags.
-From VerifGen Require Import GenPolygon.
+From Verif Require Import C18.GenSupport C18.GenOkCode.
+From VerifGen Require Import GenPolygon GenPolygonCode.
 Import ListNotations.
 Open Scope string_scope.
 Open Scope list_scope.
@@ -281,6 +282,41 @@ Example ex_search : search_strings ["boatyard"; "dam"; "dock"; "riverbank"] "doc
 Proof. vm_compute. repeat split. Qed.
 Example ex_tag_set : NoDup (keys [("highway", "elevator"); ("name", "x"); ("area", "")]).
 Proof. repeat constructor; cbn; intuition discriminate. Qed.
+(* Tie by translation: the bodies of Way.Polygon, Relation.Polygon, Tags.Find, Tags.FindTag,
+   Tags.HasTag, Tags.Map and Tags.AnyInteresting, regenerated from polygon.go / tag.go on every
+   run (VerifGen.GenPolygonCode), are the model's functions, for all inputs and every rule table
+   (a table as the Go code holds it: condition names as strings; the model's table is its image
+   under decode_rule, and for the table of the code as it is now that image is RT).  A result of
+   Way.Polygon is an option: None stands for a Go run-time panic / the search running out of
+   fuel, which the other theorems exclude. *)
+Theorem C18_generated_code_is_model :
+  (forall ts k, gen_tags_find ts k = find k ts) /\
+  (forall ts k, gen_tags_find_tag ts k = find_tag k ts) /\
+  (forall ts k, gen_tags_has_tag ts k = has_tag k ts) /\
+  (forall ts, gen_tags_map ts = tags_map ts) /\
+  (forall ts, gen_tags_any_interesting ts = any_interesting_now ts) /\
+  (forall ts, gen_relation_polygon ts = relation_polygon ts) /\
+  (forall T nodes ts,
+     gen_way_polygon T nodes ts = res_opt (way_polygon_wn (map decode_rule T) nodes ts)) /\
+  map decode_rule raw_table_now = RT.
+Proof.
+  split; [exact gen_tags_find_ok|]. split; [exact gen_tags_find_tag_ok|].
+  split; [exact gen_tags_has_tag_ok|]. split; [exact gen_tags_map_ok|].
+  split; [exact gen_tags_any_interesting_ok|]. split; [exact gen_relation_polygon_ok|].
+  split; [exact gen_way_polygon_ok|exact raw_table_now_is_RT].
+Qed.
+Print Assumptions C18_generated_code_is_model.
+
+Example ex_generated_code_runs :
+  gen_way_polygon raw_table_now
+    [mkWayNode 100 0 0 0 0; mkWayNode 101 0 0 0 0; mkWayNode 102 0 0 0 0; mkWayNode 100 0 0 0 0]
+    [("highway", "elevator"); ("name", "x")] = Some true /\
+  gen_way_polygon raw_table_now
+    [mkWayNode 100 0 0 0 0; mkWayNode 101 0 0 0 0; mkWayNode 102 0 0 0 0; mkWayNode 100 0 0 0 0]
+    [("natural", "cliff")] = Some false /\
+  gen_relation_polygon [("type", "boundary")] = true.
+Proof. vm_compute. repeat split. Qed.
+
 Example ex_closed_ring : closed_ring ring4.
 Proof. exists 100%Z, [101; 102]%Z. split; [reflexivity|apply le_n]. Qed.
 
